@@ -475,6 +475,10 @@ def corpus_2q(rng):
     out["local_CZ"] = np.kron(a, b) @ out["CZ"]
     out["local_RXX_local"] = np.kron(c, d) @ out["RXX"] @ np.kron(b, a)
     out["phase_iSWAP"] = np.exp(0.77j) * out["iSWAP"]
+    for i, eps in enumerate([1e-3, 1e-5, 1e-7]):  # nearly degenerate / nearly local
+        out[f"nearlocal{i}"] = np.kron(a, b) @ m(gates.RXX(0, 1, eps)) @ np.kron(c, d)
+        out[f"nearCNOT{i}"] = np.kron(c, b) @ out["CNOT"] @ m(gates.RZZ(0, 1, eps)) @ np.kron(a, d)
+        out[f"nearhz{i}"] = m(gates.RXX(0, 1, 0.7)) @ m(gates.RYY(0, 1, -0.4)) @ m(gates.RZZ(0, 1, eps))
     out["sqrtSWAP"] = np.array([[1, 0, 0, 0], [0, (1 + 1j) / 2, (1 - 1j) / 2, 0], [0, (1 - 1j) / 2, (1 + 1j) / 2, 0], [0, 0, 0, 1]])
     return out
 
@@ -489,6 +493,12 @@ def corpus_1q(rng):
            "RYpi": m(gates.RY(0, math.pi)), "iX": 1j * m(gates.X(0)), "U3": m(gates.U3(0, 0.4, -1.2, 2.2)),
            "phaseH": np.exp(-2.1j) * m(gates.H(0)), "GPI2": m(gates.GPI2(0, 0.7)),
            "tiny": m(gates.RX(0, 1e-9)), "nearX": m(gates.RX(0, math.pi - 1e-9))}
+    # near the boundaries of the angle formulas: special angles +- small offsets
+    special = [0.0, math.pi / 2, math.pi, -math.pi / 2, -math.pi, 2 * math.pi]
+    for i in range(8):
+        t, p, l = (rng.choice(special) + rng.choice([0.0, 1e-4, -1e-6, 1e-9, 3e-3]) for _ in range(3))
+        out[f"nearU{i}"] = m(gates.U3(0, t, p, l))
+        out[f"nearZ{i}"] = np.exp(1j * rng.uniform(-3, 3)) * m(gates.RZ(0, rng.choice([1e-4, -1e-6, 2e-3]))) @ m(gates.RY(0, rng.uniform(0.1, 3))) @ m(gates.RZ(0, rng.choice([1e-4, -1e-5, -2e-3])))
     return out
 
 
@@ -615,8 +625,10 @@ def corr_cases(ctx):
 def odd_sets():
     _, _, U = modules()
     N = U.NativeGates
-    return [("CZ_only", N.CZ | N.RZ), ("U3_only", N.U3 | N.Z), ("NONE", N.NONE), ("GPI2_U3_CZ", N.GPI2 | N.U3 | N.CZ | N.RZ | N.Z),
-            ("U3_iSWAP_CNOT", N.U3 | N.iSWAP | N.CNOT | N.RZ | N.Z), ("default", N.default())]
+    # sets without a one-qubit or without a two-qubit native (errors) and the default set;
+    # mixed sets (GPI2 and U3 together, CNOT next to CZ) are outside the property: which
+    # table wins there is the implementation's choice and is not compared
+    return [("CZ_only", N.CZ | N.RZ), ("U3_only", N.U3 | N.Z), ("NONE", N.NONE), ("default", N.default())]
 
 
 def correspondence(ctx):
@@ -649,7 +661,7 @@ def correspondence(ctx):
     csets = native_sets()
     lines += [f"CLOSED {mask_of(ns)} {tabs}" for _, ns, _, _ in csets]
     outs = run_driver(lines, driver="DriverC10.lean")
-    bad = 0
+    bad, first = 0, None
     for (descr, build, code, sname, ns), r, m in zip(work, real, outs):
         exp = r if r == "ERR" else show_res(r, shapes)
         ctx.case(("TR", descr, sname))
@@ -658,18 +670,11 @@ def correspondence(ctx):
             ctx.sample({"kind": "TR", "gate": descr, "natives": flag_names(ns), "result": [f"{x.__class__.__name__}{tuple(x.qubits)}" for x in r][:12]})
         if exp != m:
             bad += 1
-            py = REPLAY_PRE + f"g = {code}\nns = natives({flag_names(ns)})\n" + (
-                "try:\n    out = translate_gate(g, ns)\nexcept Exception as e:\n    out = None\n"
-                "out = out if isinstance(out, list) or out is None else [out]\n"
-                "n = max(g.qubits) + 1\n"
-                "if out is not None and not all(x.__class__.__name__ in ('I', 'Align', 'M') for x in out):\n"
-                "    assert only_native(out, ns), [x.name for x in out]\n"
-                "    assert phase_equal(full(out, n), full([g], n), 1e-6)\n")
-            key, obs = search_one(ctx, build, code, sname, ns)
-            ctx.fail(key or f"dispatch:{descr.split('(')[0]}:{sname}",
-                     f"translate_gate({descr}, {sname}) returns a gate list different from the dispatch model's",
-                     py, expected=m[:400], observed=(obs or exp)[:400], broken=["C10_corr_translate"])
-    ctx.ob("C10_corr_translate", bad == 0, "correspondence", f"{bad} disagreements" if bad else "")
+            first = first or f"translate_gate({descr}, {sname}): real {exp[:160]} / model {m[:160]}"
+            # is the property itself violated on this input?  (otherwise the broken
+            # correspondence obligation stands alone: the model no longer mirrors the code)
+            search_one(ctx, build, code, sname, ns, broken=["C10_corr_translate"])
+    ctx.ob("C10_corr_translate", bad == 0, "correspondence", f"{bad} disagreements, first: {first}" if bad else "")
     okc = True
     for (sname, ns, _, _), m in zip(csets, outs[len(work):]):
         ctx.case(("CLOSED", sname))
@@ -690,13 +695,16 @@ def unroll_correspondence(ctx, shapes):
     infos = qgates.gate_infos()
     rng = ctx.rng
     sets = [(s, ns) for s, ns, _, _ in native_sets()]
-    pool = [n for n in ONE_Q_COMMON + TWO_Q_CZ + ["CY", "RZX", "PRX"] if n in infos and infos[n].generic]
     work = []
-    for _ in range(40 if ctx.thorough else 12):
+    for _ in range(60 if ctx.thorough else 20):
         n = rng.randint(2, 4)
         recipe = []
+        sname, ns, s1, s2 = rng.choice(native_sets())
+        pool = ONE_Q_COMMON + (ONE_Q_U3_ONLY if s1 == "U3" else []) + 2 * (TWO_Q_CNOT if s2 == ("CNOT",) else TWO_Q_CZ)
+        pool = [x for x in pool if x in infos and infos[x].generic]
+        odd = rng.random() < 0.2
         for _ in range(rng.randint(1, 6)):
-            name = rng.choice(pool if rng.random() < 0.9 else ["CY", "RZX", "CCZ"])
+            name = rng.choice(pool if not odd or rng.random() < 0.7 else ["CY", "RZX", "CCZ", "PRX", "RYY", "TOFFOLI"])
             info = infos[name]
             if info.nq > n:
                 continue
@@ -709,7 +717,6 @@ def unroll_correspondence(ctx, shapes):
             recipe.append(("M", sorted(rng.sample(range(n), rng.randint(1, n))), []))
         if not recipe:
             continue
-        sname, ns = rng.choice(sets)
         work.append((n, recipe, sname, ns))
 
     def build(n, recipe):
@@ -754,22 +761,38 @@ def unroll_correspondence(ctx, shapes):
                 continue
             awork.append((gl, ns2, a))
             lines.append(f"ASSERT {mask_of(ns2)} {len(gl)} " + " ".join(gate_tokens(shapes.ugate(g)) for g in gl))
+    extra_lists = [
+        lambda: [gates.iSWAP(0, 1).controlled_by(2)], lambda: [gates.RZ(0, 0.3).controlled_by(1, 2)], lambda: [gates.GPI2(1, 0.3).controlled_by(0, 2, 3)],
+        lambda: [gates.H(0), gates.CZ(0, 1)], lambda: [gates.U3(1, 0.1, 0.2, 0.3), gates.iSWAP(0, 2), gates.M(0, 1, 2)],
+        lambda: [gates.TOFFOLI(0, 1, 2)], lambda: [gates.Z(2), gates.CNOT(1, 0)], lambda: [gates.M(0, 1, 2, 3)],
+        lambda: [gates.GPI2(0, 0.2), gates.RZ(1, 0.1), gates.I(2)], lambda: [gates.Unitary(np.eye(2), 0)],
+    ]
+    for mk in extra_lists:
+        for sname2, ns2 in (sets if ctx.thorough else rng.sample(sets, 3)):
+            c = Circuit(4)
+            try:
+                gl = mk()
+                for g in gl:
+                    c.add(g)
+                assert_decomposition(c, ns2)
+                a = "true"
+            except U.DecompositionError:
+                a = "false"
+            except Exception:
+                continue
+            awork.append((gl, ns2, a))
+            lines.append(f"ASSERT {mask_of(ns2)} {len(gl)} " + " ".join(gate_tokens(shapes.ugate(g)) for g in gl))
     outs = run_driver(lines, driver="DriverC10.lean")
-    bad = 0
+    bad, first = 0, None
     for (n, recipe, sname, ns), r, m in zip(work, real, outs):
         exp = r if r == "ERR" else show_res(r, shapes)
         ctx.case(("UNROLL", n, sname, tuple((a, tuple(b)) for a, b, _ in recipe)))
         ctx.stat("UNROLL_" + ("err" if r == "ERR" else "ok"))
         if exp != m:
             bad += 1
-            code = f"c = Circuit({n})\n" + "".join(f"c.add(gates.{a}(*{b}, *{[float(v) for v in v_]}))\n" for a, b, v_ in recipe)
-            key = circuit_check(ctx, n, recipe, sname, ns)
-            if key is None:
-                ctx.fail(f"dispatch:circuit:{sname}", "Unroller output differs from the dispatch model's",
-                         REPLAY_PRE + code + f"ns = natives({flag_names(ns)})\nu = Unroller(ns)(c)\nassert only_native(u.queue, ns)\n"
-                         f"assert phase_equal(full(u.queue, {n}), full(c.queue, {n}), 1e-6)\n",
-                         expected=m[:400], observed=exp[:400], broken=["C10_corr_unroll"])
-    ctx.ob("C10_corr_unroll", bad == 0, "correspondence", f"{bad} disagreements" if bad else "")
+            first = first or f"Unroller({sname}) on {[(a, b) for a, b, _ in recipe]}: real {exp[:160]} / model {m[:160]}"
+            circuit_check(ctx, n, recipe, sname, ns, broken=["C10_corr_unroll"])
+    ctx.ob("C10_corr_unroll", bad == 0, "correspondence", f"{bad} disagreements, first: {first}" if bad else "")
     bad = 0
     for (gl, ns2, a), m in zip(awork, outs[len(work):]):
         ctx.case(("ASSERT", tuple(g.__class__.__name__ for g in gl), mask_of(ns2)))
@@ -790,6 +813,15 @@ def unroll_correspondence(ctx, shapes):
 # (3) direct search on the real code
 
 
+KAK_KNOWN_KEY = "kak:raises:NotImplementedError"
+
+
+def is_magic_basis_refusal(e):
+    """the one refusal of the numerical KAK path that is a listed finding: eigenvectors of a
+    degenerate U^T U are not made real.  Anything else gets its own key."""
+    return type(e) is NotImplementedError and "not real in the magic basis" in str(e)
+
+
 def supported(name, nq, s1, s2):
     """SPEC: must this class translate under this native set?"""
     if nq == 1:
@@ -799,7 +831,7 @@ def supported(name, nq, s1, s2):
     return name in TWO_Q_CZ or name in ("Unitary", "GeneralizedfSim")
 
 
-def search_one(ctx, build, code, sname, ns, must=None, tol=1e-7):
+def search_one(ctx, build, code, sname, ns, must=None, tol=1e-7, broken=None):
     """property check of one translate_gate call on the real code.  Returns (key, observed)
     of the failure reported, or (None, None)."""
     gates, D, U = modules()
@@ -807,6 +839,7 @@ def search_one(ctx, build, code, sname, ns, must=None, tol=1e-7):
     name = g.__class__.__name__
     n = max(g.qubits) + 1
     special = name in ("I", "Align", "M")
+    broken = broken or [f"C10_search_{sname}"]
     ref_gate = build()
     py = REPLAY_PRE + f"g = {code}\nref = {code}\nns = natives({flag_names(ns)})\nn = {n}\n"
     try:
@@ -814,10 +847,10 @@ def search_one(ctx, build, code, sname, ns, must=None, tol=1e-7):
     except Exception as e:
         if must:
             key = f"raises:{name}:{sname}"
-            if name == "Unitary" and len(g.qubits) == 2:
-                key = f"kak:raises:{type(e).__name__}"
+            if name in ("Unitary", "fSim", "GeneralizedfSim") and len(g.qubits) == 2 and is_magic_basis_refusal(e):
+                key = KAK_KNOWN_KEY
             ctx.fail(key, f"translate_gate({code}, {flag_names(ns)}) raises {type(e).__name__}: {e} but the class is in the translation tables of this native set",
-                     py + "out = translate_gate(g, ns)\n", observed=f"{type(e).__name__}: {e}", broken=[f"C10_search_{sname}"])
+                     py + "out = translate_gate(g, ns)\n", observed=f"{type(e).__name__}: {e}", broken=broken)
             return key, f"{type(e).__name__}"
         ctx.stat("refused")
         return None, None
@@ -828,7 +861,7 @@ def search_one(ctx, build, code, sname, ns, must=None, tol=1e-7):
         key = "controlled_by:silent"
         ctx.fail(key, f"translate_gate({code}) returns {[x.name for x in out][:6]} instead of raising (controlled_by gates are outside the tables)",
                  py + "try:\n    translate_gate(g, ns)\nexcept Exception:\n    raise SystemExit(0)\nraise SystemExit(1)\n",
-                 expected="an exception", observed=str([x.name for x in out][:8]), broken=[f"C10_search_{sname}"])
+                 expected="an exception", observed=str([x.name for x in out][:8]), broken=broken)
         return key, "returned"
     nn = only_native(out, ns)
     try:
@@ -841,18 +874,18 @@ def search_one(ctx, build, code, sname, ns, must=None, tol=1e-7):
         ctx.fail(key, f"translate_gate({code}, {flag_names(ns)}) returns non-native gates {sorted({x.__class__.__name__ for x in out if not is_native(x, ns)})}",
                  py + "out = translate_gate(g, ns)\nassert only_native(out, ns), [x.name for x in out]\n",
                  expected="only " + ",".join(flag_names(ns)), observed=str([x.__class__.__name__ for x in out][:12]),
-                 broken=[f"C10_search_{sname}"])
+                 broken=broken)
         return key, "non-native"
     if not ok:
         key = f"operator:{name}:{sname}"
         ctx.fail(key, f"translate_gate({code}, {flag_names(ns)}): product of the result differs from the gate beyond a global phase",
                  py + f"out = translate_gate(g, ns)\nassert phase_equal(full(out, n), full([ref], n), {max(tol, 1e-6)})\n",
-                 observed=str([f"{x.__class__.__name__}{tuple(x.qubits)}" for x in out][:12]), broken=[f"C10_search_{sname}"])
+                 observed=str([f"{x.__class__.__name__}{tuple(x.qubits)}" for x in out][:12]), broken=broken)
         return key, "wrong operator"
     if not same_in:
         key = f"mutates_input:{name}:{sname}"
         ctx.fail(key, f"translate_gate({code}) changes its input gate", py + "m0 = g.matrix(nb).copy()\ntranslate_gate(g, ns)\nassert np.allclose(g.matrix(nb), m0)\n",
-                 broken=[f"C10_search_{sname}"])
+                 broken=broken)
         return key, "mutated input"
     if must is False:
         ctx.stat("extra_supported")
@@ -954,7 +987,7 @@ def unitary_search(ctx):
         except Exception as e:
             ok, shape, err = False, True, e
         if not ok or not shape:
-            ctx.fail(f"kak:raises:{type(err).__name__}" if err else f"kak:operator:{label.rstrip('0123456789')}", f"two_qubit_decomposition of the unitary '{label}' on qubits {q} " + (f"raises {type(err).__name__}: {err}" if err else "is not the unitary up to a phase"),
+            ctx.fail((KAK_KNOWN_KEY if is_magic_basis_refusal(err) else f"kak:error:{type(err).__name__}") if err else f"kak:operator:{label.rstrip('0123456789')}", f"two_qubit_decomposition of the unitary '{label}' on qubits {q} " + (f"raises {type(err).__name__}: {err}" if err else "is not the unitary up to a phase"),
                      REPLAY_PRE + f"from qibo.transpiler.unitary_decompositions import two_qubit_decomposition\nM = {Mc}\n"
                      f"gl = two_qubit_decomposition({q[0]}, {q[1]}, M.astype(complex), backend=nb)\n"
                      f"assert phase_equal(full(gl, {n}), full([gates.Unitary(M, *{list(q)})], {n}), 1e-6)\n",
@@ -965,7 +998,7 @@ def unitary_search(ctx):
         for sname, ns, s1, s2 in chosen:
             ctx.case(("unitary2q", label, sname))
             search_one(ctx, (lambda M=M, q=q: gates.Unitary(np.array(M, dtype=complex), *q)), f"gates.Unitary({Mc}, *{list(q)})",
-                       sname, ns, must=True, tol=1e-6)
+                       sname, ns, must=True, tol=1e-6, broken=["C10_search_unitary"])
     for label, M in mats1:
         q = rng.choice([0, 1, 2])
         Mc = f"np.array({np.asarray(M).tolist()})"
@@ -984,7 +1017,7 @@ def unitary_search(ctx):
         for sname, ns, s1, s2 in (sets if ctx.thorough else rng.sample(sets, 2)):
             ctx.case(("unitary1q", label, sname))
             search_one(ctx, (lambda M=M, q=q: gates.Unitary(np.array(M, dtype=complex), q)), f"gates.Unitary({Mc}, {q})",
-                       sname, ns, must=True, tol=1e-7)
+                       sname, ns, must=True, tol=1e-7, broken=["C10_search_unitary"])
     # GeneralizedfSim (matrix-valued table entry)
     for sname, ns, s1, s2 in sets:
         if s2 == ("CNOT",):
@@ -993,11 +1026,12 @@ def unitary_search(ctx):
         phi = rng.choice(PARAM_GRID)
         q = rng.choice([(0, 1), (1, 0), (2, 0)])
         search_one(ctx, (lambda u=u, phi=phi, q=q: gates.GeneralizedfSim(q[0], q[1], np.array(u), phi)),
-                   f"gates.GeneralizedfSim({q[0]}, {q[1]}, np.array({u.tolist()}), {phi})", sname, ns, must=True, tol=1e-6)
+                   f"gates.GeneralizedfSim({q[0]}, {q[1]}, np.array({u.tolist()}), {phi})", sname, ns, must=True, tol=1e-6,
+                   broken=["C10_search_unitary"])
     ctx.ob("C10_search_unitary", len(ctx.failures) == before, "search", "" if len(ctx.failures) == before else "failing inputs found")
 
 
-def circuit_check(ctx, n, recipe, sname, ns):
+def circuit_check(ctx, n, recipe, sname, ns, broken=None):
     """property check of one Unroller call; returns the failure key or None."""
     from qibo import Circuit
     from qibo.transpiler.asserts import assert_decomposition
@@ -1010,6 +1044,7 @@ def circuit_check(ctx, n, recipe, sname, ns):
             c.add(getattr(gates, name)(*qs, *vals))
         return c
 
+    broken = broken or ["C10_search_circuit"]
     code = f"c = Circuit({n})\n" + "".join(f"c.add(gates.{a}(*{list(b)}, *{[float(v) for v in v_]}))\n" for a, b, v_ in recipe)
     py = REPLAY_PRE + code + f"ns = natives({flag_names(ns)})\n"
     c = build()
@@ -1022,33 +1057,45 @@ def circuit_check(ctx, n, recipe, sname, ns):
         u = U.Unroller(ns)(c)
     except Exception as e:
         if all_sup:
-            key = f"circuit_raises:{sname}"
+            key = KAK_KNOWN_KEY if is_magic_basis_refusal(e) else f"circuit_raises:{sname}"
             ctx.fail(key, f"Unroller raises {type(e).__name__}: {e} on a circuit of supported gates", py + "Unroller(ns)(c)\n",
-                     observed=f"{type(e).__name__}: {e}", broken=["C10_search_circuit"])
+                     observed=f"{type(e).__name__}: {e}", broken=broken)
             return key
         return "refused"
     key = None
     if not only_native(u.queue, ns) and not any(g.__class__.__name__ in ("I", "Align") for g in u.queue if not is_native(g, ns)):
         key = f"circuit_non_native:{sname}"
         ctx.fail(key, "Unroller output contains non-native gates", py + "u = Unroller(ns)(c)\nassert only_native(u.queue, ns), [g.name for g in u.queue]\n",
-                 observed=str([g.__class__.__name__ for g in u.queue][:20]), broken=["C10_search_circuit"])
+                 observed=str([g.__class__.__name__ for g in u.queue][:20]), broken=broken)
     elif u.nqubits != n or not qgates.phase_equal(full_of(u.queue, n), U0, 1e-6):
         key = f"circuit_operator:{sname}"
         ctx.fail(key, "Unroller output is not the input's operator up to a global phase",
                  py + f"u = Unroller(ns)(c)\nassert u.nqubits == {n} and phase_equal(full(u.queue, {n}), full(c.queue, {n}), 1e-6)\n",
-                 broken=["C10_search_circuit"])
+                 broken=broken)
     elif not np.allclose(full_of(c.queue, n), U0, atol=1e-12) or len(c.queue) != len(recipe):
         key = f"circuit_mutated:{sname}"
         ctx.fail(key, "Unroller changes the circuit it is given", py + f"U0 = full(c.queue, {n})\nUnroller(ns)(c)\nassert np.allclose(full(c.queue, {n}), U0)\n",
-                 broken=["C10_search_circuit"])
+                 broken=broken)
     else:
+        sig = lambda circ: [(g.__class__.__name__, tuple(g.qubits), Shapes.pkey(g)[1]) for g in circ.queue]
+        try:
+            u2 = U.Unroller(ns)(c)
+            same = sig(u2) == sig(u)
+        except Exception:
+            same = False
+        if not same:
+            key = f"second_call:{sname}"
+            ctx.fail(key, "a second Unroller call on the same circuit gives a different result",
+                     py + "sig = lambda q: [(g.name, g.qubits, [np.asarray(p).tolist() for p in g.parameters]) for g in q]\n"
+                     "a = sig(Unroller(ns)(c).queue); b = sig(Unroller(ns)(c).queue)\nassert a == b\n", broken=broken)
+            return key
         try:
             if all(is_native(g, ns) or g.__class__.__name__ == "M" for g in u.queue):
                 assert_decomposition(u, ns)
         except Exception as e:
             key = f"assert_rejects:{sname}"
             ctx.fail(key, f"assert_decomposition rejects an all-native Unroller output: {e}", py + "assert_decomposition(Unroller(ns)(c), ns)\n",
-                     observed=str(e), broken=["C10_search_circuit"])
+                     observed=str(e), broken=broken)
     return key
 
 
@@ -1056,14 +1103,14 @@ def circuit_search(ctx):
     infos = qgates.gate_infos()
     rng = ctx.rng
     before = len(ctx.failures)
-    for _ in range(80 if ctx.thorough else 24):
+    for _ in range(120 if ctx.thorough else 40):
         sname, ns, s1, s2 = rng.choice(native_sets())
         pool1 = ONE_Q_COMMON + (ONE_Q_U3_ONLY if s1 == "U3" else [])
         pool2 = TWO_Q_CNOT if s2 == ("CNOT",) else TWO_Q_CZ
         n = rng.randint(2, 4)
         recipe = []
-        for _ in range(rng.randint(2, 7)):
-            name = rng.choice(pool1 if rng.random() < 0.45 else pool2)
+        for _ in range(rng.randint(2, 14)):
+            name = rng.choice(pool1 if rng.random() < 0.6 else pool2)
             info = infos[name]
             if info.nq > n:
                 continue
